@@ -162,3 +162,48 @@ def option_clamp_probe(H, case):
         except Exception as e:  # noqa
             got = f"raised {type(e).__name__}"
         H.check("clamped_into_declared_bounds", got == max(lo, min(hi, v)), witness={"assigned": v, "read_back": got})
+
+
+def _loaded_len_cases(tier):
+    out = []
+    for c in _option_classes():
+        top = max(o.byte for o in c.options.values())
+        lens = sorted({0, 1, top, top + 1, 64}) if tier == "quick" else sorted(set(range(0, top + 3)) | {64})
+        for n in lens:
+            out.append((f"{K.cls_id(c)}/loaded_record_len={n}", (K.cls_id(c), n)))
+    return out
+
+
+@contract(
+    "options_roundtrip_after_load", ["C11", "C06"],
+    targets=["rv.modules.module:Module.load_options", "rv.modules.module:Module.options_chunks"],
+    cases=_loaded_len_cases,
+)
+def options_roundtrip_after_load(H, case):
+    """The same round-trip statement for a module *as the loader leaves it*: first an options record
+    of any length 0..64 (shorter, equal or longer than the current layout; arbitrary bytes) is loaded,
+    then every option is given an arbitrary representable value.  ensures: the record written covers
+    the highest option byte and restores every value (nothing of the loaded record is replayed)."""
+    cname, n = case
+    cls = K.class_by_name(cname)
+    m = cls()
+    old = Chunk()
+    old.chnm = cls.options_chnm
+    old.chdt = H.bytes("loaded", n)
+    H.call(m.load_options, old)
+    stored = {}
+    for name, o in cls.options.items():
+        stored[name] = _sym_stored(H, o)
+        m.option_values[name] = stored[name]
+    chunks = list(H.call(m.options_chunks))
+    data = chunks[1][1]
+    top = max(o.byte for o in cls.options.values())
+    H.check("record_covers_highest_option_byte", len(data) == top + 1)
+    m2 = cls()
+    ch = Chunk()
+    ch.chnm = cls.options_chnm
+    ch.chdt = data
+    H.call(m2.load_options, ch)
+    for name, o in cls.options.items():
+        H.check(f"restored[{name}]", H.eq(m2.option_values[name], stored[name]))
+    H.cover("reached")
